@@ -480,7 +480,9 @@ func main() {
 			infra = append(infra, "no acknowledged request of protocol "+k)
 		}
 	}
-	o := map[string]any{"acked_by_protocol": ackedByKind, "infra": infra, "requests": totalReq, "acked": acked, "blocks": blocks, "rows": rowsSeen, "classes": classes, "findings": findings, "signature_counts": sigSeen}
+	// phase "subsvc": concurrent requests on several sub-services of every insert service (spec/ingest/ColumnFill.tla)
+	ss, sinfra := runSubsvc(rnd, *rounds)
+	o := map[string]any{"subsvc": ss, "subsvc_infra": sinfra, "acked_by_protocol": ackedByKind, "infra": infra, "requests": totalReq, "acked": acked, "blocks": blocks, "rows": rowsSeen, "classes": classes, "findings": findings, "signature_counts": sigSeen}
 	b, _ := json.MarshalIndent(o, "", " ")
 	if *out != "" {
 		os.WriteFile(*out, b, 0644)
